@@ -511,3 +511,69 @@ package store
 //@   ensures [dump-error-returned] (dumped && dumpErr != nil) ==> retErr != nil
 //@   ensures [nil-means-produced] retErr == nil ==> ((cpDone && cpErr == nil) || (dumped && dumpErr == nil) || fast)
 //@   ensures [gate-released] gate ==> gateFreed
+//
+// ---- C32: membership changes ask raft for exactly the change requested --------------------------------
+// Join: only a node that observed itself leader changes the membership; a member that is already
+// present with the same id and address causes no raft call at all; otherwise every configuration
+// entry that clashes with the joining node's id or address leads to remove(id) before the add, and
+// the add asks for the suffrage requested (AddVoter iff voter) with the id and address given.
+// (That a NEW id reusing the address of another member is refused is raft's own duplicate-address
+// check: remove(id) removes nothing in that case. Listed as assumed.)
+//@ func (*Store) Join
+//@   requires [built] s != nil && jr != nil
+//@   assigns **
+//@   ghost var leaderObs bool = false
+//@   ghost var id0 string = jr.Id
+//@   ghost var addr0 string = jr.Address
+//@   ghost var voter0 bool = jr.Voter
+//@   ghost var nAdd int = 0
+//@   ghost var clash bool = false
+//@   ghost var rmOK bool = true
+//@   ghost update @s.raft.State: leaderObs = (result == raft.Leader)
+//@   assert @s.raft.GetConfiguration: [leader-only] leaderObs
+//@   assert @s.remove: [remove-joining-id-on-clash] leaderObs && arg0 == id0 && (srv.ID == id0 || srv.Address == addr0) && !(srv.ID == id0 && srv.Address == addr0)
+//@   ghost update @s.remove: clash = true
+//@   ghost update @s.remove: rmOK = rmOK && (result == nil)
+//@   assert @s.raft.AddVoter: [voter-as-requested] leaderObs && voter0 && nAdd == 0 && rmOK && arg0 == id0 && arg1 == addr0
+//@   ghost update @s.raft.AddVoter: nAdd = nAdd + 1
+//@   assert @s.raft.AddNonvoter: [non-voter-as-requested] leaderObs && !voter0 && nAdd == 0 && rmOK && arg0 == id0 && arg1 == addr0
+//@   ghost update @s.raft.AddNonvoter: nAdd = nAdd + 1
+//@   loop 1 invariant [scan] nAdd == 0 && rmOK && leaderObs
+//@   ensures [at-most-one-add] nAdd <= 1
+//@   ensures [not-leader-no-change] !leaderObs ==> (nAdd == 0 && !clash)
+//
+// remove: asks raft to remove exactly the id given and returns its verdict.
+//@ func (*Store) remove
+//@   requires [built] s != nil
+//@   assigns **
+//@   assert @s.raft.RemoveServer: [removes-the-given-id] arg0 == id
+//
+// Notify: a bootstrap is attempted at most once, never when BootstrapExpect is 0, when already
+// bootstrapped or when a leader is known, and only once the number of distinct notified ids
+// reaches BootstrapExpect; a node id is recorded once (map keyed by id).
+//@ func (*Store) Notify
+//@   requires [built] s != nil && nr != nil
+//@   assigns **
+//@   ghost var nBoot int = 0
+//@   ghost var hasLeader bool = false
+//@   ghost var leaderSeen bool = false
+//@   ghost var boot0 bool = false
+//@   ghost var exp0 int = 0
+//@   ghost update @s.HasLeader: hasLeader = result
+//@   ghost update @s.HasLeader: leaderSeen = true
+//@   assert @s.raft.BootstrapCluster: [bootstrap-conditions] nBoot == 0 && s.BootstrapExpect != 0 && leaderSeen && !hasLeader && len(s.notifyingNodes) >= s.BootstrapExpect
+//@   ghost update @s.raft.BootstrapCluster: nBoot = nBoot + 1
+//@   loop 1 invariant [once] nBoot == 0
+//@   ensures [at-most-once] nBoot <= 1
+//@   ensures [marked-bootstrapped] nBoot == 1 ==> s.bootstrapped
+//
+// The observer goroutine (C32, reaping of unresponsive nodes): a node is removed only if it is in the
+// configuration, the reap timeout for its role is configured (> 0) and it has been out of contact
+// for longer than that timeout; the id removed is the one the failed heartbeat names.
+//@ func (*Store) observe$go1
+//@   requires [captured-receiver] s != nil
+//@   assigns **
+//@   assert @s.remove: [reap-only-after-role-timeout] arg0 == id && found && ite(isReadReplica, s.ReapReadOnlyTimeout > 0 && dur > s.ReapReadOnlyTimeout, s.ReapTimeout > 0 && dur > s.ReapTimeout)
+//@   assert @servers.IsReadReplica: [role-of-the-failing-node] arg0 == id
+//@   loop 1 invariant [none] true
+//@   loop 2 invariant [none] true
